@@ -6,7 +6,7 @@ from vf.core import call, exc_desc
 from vf.lazy import ck, libx, common
 
 PROP = "C15"
-RULE = ("history checker: a random history of 3-12 non-mutating API operations (any algorithm configuration, kemeny_score, "
+RULE = ("history checker: a random history of 3-12 non-mutating API operations (any algorithm configuration -- the algorithm objects are shared too, one per configuration, reused across histories --, kemeny_score, "
         "description, str, both partitions, unified_rankings / dataset, projections, matrices, scheme * k, equivalence "
         "tests, dataset == other, nickname) runs on SHARED Dataset / ScoringScheme objects; (a) a deep snapshot of the "
         "public state (values, element types, order of the id maps, identity of the Ranking objects and of the penalty "
@@ -87,13 +87,23 @@ def digest_consensus(cons):
     return out
 
 
-def run_op(op, d, s, rng_seed, other):
-    """returns a JSON-able digest of the operation's result; `other` is a second dataset for ==, built by the caller"""
+SHARED_ALGS = {}
+
+
+def run_op(op, d, s, rng_seed, other, shared_algs=None):
+    """returns a JSON-able digest of the operation's result; `other` is a second dataset for ==, built by the caller.
+    shared_algs: dict of algorithm objects reused across the operations of a history (None = a fresh object)"""
     r = random.Random(rng_seed)
     libx.seed_library(rng_seed)
     uni = sorted(d.universe, key=lambda e: (str(type(e.value)), e.value))
     if op in ALG_OPS:
-        cons = libx.make_algorithm(op).compute_consensus_rankings(d, s, r.random() < 0.5)
+        if shared_algs is not None:
+            if op not in shared_algs:
+                shared_algs[op] = libx.make_algorithm(op)
+            alg = shared_algs[op]
+        else:
+            alg = libx.make_algorithm(op)
+        cons = alg.compute_consensus_rankings(d, s, r.random() < 0.5)
         return digest_consensus(cons), cons
     if op == "kemeny_score":
         cons = ck.Consensus([d.unified_rankings()[0]], dataset=d, scoring_scheme=s)
@@ -173,7 +183,7 @@ def check_case(case, ctx):
         seed = case["opseed"] + step
         sub = {**case, "failed_step": step, "op": op}
         before_d, before_s, before_o = snap_dataset(d), snap_scheme(s), snap_dataset(other)
-        st, res = call(run_op, op, d, s, seed, other)
+        st, res = call(run_op, op, d, s, seed, other, SHARED_ALGS)
         after_d, after_s, after_o = snap_dataset(d), snap_scheme(s), snap_dataset(other)
         ctx.count("ops")
         ctx.count("op:" + op)
@@ -216,7 +226,7 @@ def check_case(case, ctx):
         captured.append((step, op, dig, obj))
         # (d) repeatability
         if op in ALG_OPS and "KwikSort" not in op:
-            st3, res3 = call(run_op, op, d, s, seed, other)
+            st3, res3 = call(run_op, op, d, s, seed, other, SHARED_ALGS)
             ctx.count("repeat_checks")
             if st3 == "ok" and res3[0] != dig:
                 ctx.violation(f"C15/not-repeatable:{op.split('[')[0].split('(')[0]}", f"step {step}: {op} called twice on "
